@@ -66,4 +66,77 @@ example : (∀ s ∈ [2, 0, 2, 2], s < 3) ∧ mcTable 3 (fun a => [2, 0, 2, 2].c
   · intro s hs; simp at hs; omega
   · norm_num [mcTable, sumTo, List.count_cons]
 
+/-! ### factored (joint-action) ε-mixture -/
+
+theorem jointEps_sum_aux (eps : Rat) (N : Nat) (g : List Nat) : ∀ (l : List (List Nat)),
+    (l.map (jointEps eps N g)).sum = (1 - eps) * (l.count g : Rat) + eps * (1 / (N : Rat)) * (l.length : Rat) := by
+  intro l
+  induction l with
+  | nil => simp
+  | cons a t ih =>
+    rw [List.map_cons, List.sum_cons, ih, List.count_cons, List.length_cons]
+    unfold jointEps
+    by_cases h : a = g
+    · subst h; simp; ring
+    · have : (a == g) = false := by simpa using h
+      simp [h, this]; ring
+
+/-- **joint_eps_valid** — `Factored::Bandit::EpsilonPolicy` (and, with ε = 0 / ε = 1, the deterministic factored policies and
+    `RandomPolicy`): over ANY joint action space (enumerated without repetition, containing the wrapped policy's action `g`) and any
+    ε ∈ [0,1] the per-joint-action probabilities are non-negative and sum to one. -/
+theorem joint_eps_valid (eps : Rat) (h0 : 0 ≤ eps) (h1 : eps ≤ 1) (space : List (List Nat)) (hnd : space.Nodup)
+    (g : List Nat) (hg : g ∈ space) :
+    (∀ a, 0 ≤ jointEps eps space.length g a) ∧ (space.map (jointEps eps space.length g)).sum = 1 := by
+  have hlen : 0 < space.length := List.length_pos_of_mem hg
+  have hlq : (0 : Rat) < (space.length : Rat) := by exact_mod_cast hlen
+  constructor
+  · intro a
+    unfold jointEps
+    have : (0 : Rat) ≤ (if a = g then 1 else 0) := by split <;> norm_num
+    have h2 : 0 ≤ 1 - eps := by linarith
+    positivity
+  · rw [jointEps_sum_aux, List.count_eq_one_of_mem hnd hg]
+    field_simp
+    ring
+
+example : ([[0, 0], [1, 0], [0, 1], [1, 1]] : List (List Nat)).Nodup ∧ [1, 0] ∈ ([[0, 0], [1, 0], [0, 1], [1, 1]] : List (List Nat)) := by
+  decide
+
+/-! ### `recommendAction` (Eigen `maxCoeff(&idx)`) -/
+
+theorem recommend_aux (mean : Nat → Rat) : ∀ k, 0 < k →
+    (List.range k).foldl (fun b i => if mean b < mean i then i else b) 0 < k ∧
+    ∀ i, i < k → mean i ≤ mean ((List.range k).foldl (fun b i => if mean b < mean i then i else b) 0) := by
+  intro k
+  induction k with
+  | zero => intro h; omega
+  | succ k ih =>
+    intro _
+    rw [List.range_succ, List.foldl_append]
+    simp only [List.foldl_cons, List.foldl_nil]
+    rcases Nat.eq_zero_or_pos k with hk | hk
+    · subst hk
+      simp only [List.range_zero, List.foldl_nil, lt_self_iff_false, if_false]
+      exact ⟨by omega, fun i hi => by obtain rfl : i = 0 := by omega
+                                      exact le_refl _⟩
+    · obtain ⟨hr, hmax⟩ := ih hk
+      set r := (List.range k).foldl (fun b i => if mean b < mean i then i else b) 0 with hrdef
+      by_cases hlt : mean r < mean k
+      · rw [if_pos hlt]
+        refine ⟨by omega, fun i hi => ?_⟩
+        rcases Nat.lt_or_ge i k with h | h
+        · exact le_of_lt (lt_of_le_of_lt (hmax i h) hlt)
+        · obtain rfl : i = k := by omega
+          exact le_refl _
+      · rw [if_neg hlt]
+        refine ⟨by omega, fun i hi => ?_⟩
+        rcases Nat.lt_or_ge i k with h | h
+        · exact hmax i h
+        · obtain rfl : i = k := by omega
+          exact not_lt.mp hlt
+
+/-- **recommend_is_argmax** — the recommended arm is legal and maximises the reward estimates (any sign, any magnitude) -/
+theorem recommend_is_argmax (mean : Nat → Rat) (n : Nat) (hn : 0 < n) :
+    recommend mean n < n ∧ ∀ i, i < n → mean i ≤ mean (recommend mean n) := recommend_aux mean n hn
+
 end AITB.Pol
